@@ -3,6 +3,9 @@ import SciVerif.Lemmas.C18c
 import SciVerif.Lemmas.C18d
 import SciVerif.Lemmas.C18e
 import SciVerif.Lemmas.C18g
+import SciVerif.Lemmas.C18h
+import SciVerif.Lemmas.C18i
+import SciVerif.Lemmas.C18j
 
 /-!
 # C18 — DIP expressions compute unit-aware results under the documented priorities
@@ -198,6 +201,20 @@ theorem C18_priorities (N : NumOps F) (C : CmpOps F) (a b c : QV F) (x y z w : L
   · rw [C18_logical_partial C id _ (by simp [E.WF, logGrammar, E.top, isCmp])]
     simp [E.eval, logBinSem, logBin, logPreSem, isCmp]
 
+/-- **The comparison operators are consistent on the same operands**, for all operand kinds
+    (bool, str, numbers with and without units, literals, raising and refused operands) and every
+    `isclose` / `<` / unit conversion: `a != b` is the negation of `a == b` (same refusals, same
+    exceptions), `a <= b` is `a < b || a == b`, `a >= b` is `a > b || a == b`; hence the trees
+    `a != b` and `~ a == b` have the same value. -/
+theorem C18_cmp_consistent (C : CmpOps F) (l r : LV F) :
+    cmpOp C "ne" l r = lNot (cmpOp C "eq" l r) ∧
+    cmpOp C "le" l r = lOr (cmpOp C "lt" l r) (cmpOp C "eq" l r) ∧
+    cmpOp C "ge" l r = lOr (cmpOp C "gt" l r) (cmpOp C "eq" l r) ∧
+    (E.bin "ne" (.lit l) (.lit r)).eval (logSem C) (logBinSem C) logPreSem id =
+      (E.pre "not" (.bin "eq" (.lit l) (.lit r))).eval (logSem C) (logBinSem C) logPreSem id := by
+  refine ⟨cmp_ne_not_eq C l r, cmp_le_lt_or_eq C l r, cmp_ge_gt_or_eq C l r, ?_⟩
+  simp [E.eval, logBinSem, logBin, logPreSem, isCmp, cmp_ne_not_eq]
+
 /-- **Operands of different dimension cannot be added**: `+`/`−` between quantities whose dimension
     exponents differ raises, and the error reaches the result of every arithmetic context. -/
 theorem C18_numeric_dim_refuse (N : NumOps F) (l r : Quant F) (h : l.dims ≠ r.dims) (isSub : Bool) :
@@ -308,13 +325,41 @@ theorem C18_numeric_units {K : Type} [Field K] (av : A → QV K)
           convert this using 3
           simp; rw [div_mul_div_comm]
 
+/-- **Unit-aware arithmetic with prefix signs is exact**: `C18_numeric_units` extended to trees that
+    also contain the prefix signs ` - x` / ` + x` anywhere (`E.ArithS` ⊇ `E.Arith`): negating the
+    magnitude of an operand in its own unit is negating its SI value, so evaluation with units agrees
+    with evaluation on SI values — same refusals, same value.  (Functions and `**` stay outside:
+    over an abstract field they are uninterpreted.) -/
+theorem C18_numeric_units_signs {K : Type} [Field K] (av : A → QV K)
+    (hav : ∀ a, Agrees (av a) ((av a).map (Quant.toSI (fieldOps K))))
+    (e : E A) (he : e.ArithS) :
+    Agrees (e.eval (numSem (fieldOps K)) (numBinSem (fieldOps K)) (numPreSem (fieldOps K)) av)
+      (evalSI (fieldOps K) (fun a => (av a).map (Quant.toSI (fieldOps K))) e) := by
+  induction e with
+  | lit a => exact hav a
+  | par e ih =>
+    have h := ih he
+    simp only [E.eval, evalSI]
+    rw [show (numSem (fieldOps K)).fn = numFn (fieldOps K) from rfl, numFn_par, siFn_par]
+    exact h
+  | fn1 f a _ => exact he.elim
+  | fn2 f a b _ _ => exact he.elim
+  | pre u e ih =>
+    obtain ⟨hu, h⟩ := he
+    simp only [E.eval, evalSI]
+    exact agrees_pre u hu _ _ (ih h)
+  | bin o l r ihl ihr =>
+    obtain ⟨ho, hl, hr⟩ := he
+    simp only [E.eval, evalSI]
+    exact agrees_bin o ho _ _ _ _ (ihl hl) (ihr hr)
+
 /-! ### templates -/
 
-/-- Full statement: the round trip below also for holes that carry a slice `[a:b,c]`.  Not proved:
-    the model's `parseSlice` splits the slice text with `String.splitOn`, for which no lemmas are
-    available; proving it would need a list-based re-implementation of the splitter (a change of the
-    model, out of scope of a proof-only round).  Checked by the driver on every generated template
-    of every run. -/
+/-- Full statement: the round trip below also for holes that carry a slice `[a:b,c]` — a non-empty
+    list of entries, an index `n` or a range with optional bounds rendered `a:b`, `a:`, `:b`, `:`,
+    bounds in decimal (`toString`), entries joined by commas.  Proved as `C18_template` (the model's
+    `parseSlice` splits the slice body with the list splitter `List.splitOn`; the scan of every
+    generated template is still compared with the generated pieces on every run). -/
 def C18_template_statement : Prop :=
   ∀ ps : List Piece, (∀ p ∈ ps, PieceOKS p) →
     scanTemplate ((ps.flatMap renderPieceS).length + 1) (ps.flatMap renderPieceS) = ps
@@ -328,7 +373,88 @@ theorem C18_template_partial (ps : List Piece) (hp : ∀ p ∈ ps, PieceOK p) :
     scanTemplate ((renderPieces ps).length + 1) (renderPieces ps) = ps :=
   scan_render ps hp _ (by omega)
 
+/-- **The slice parser inverts the slice renderer**: for every non-empty list of entries with
+    arbitrary optional bounds, `parseSlice` applied to `[e1,e2,…]` followed by any text returns exactly
+    the entries and the text behind the closing bracket (decimal numerals of any size read back to
+    the same number, `n` alone read as an index and `n:n` as a range, missing bounds stay missing). -/
+theorem C18_template_slice (l : List SliceEntry) (hl : l ≠ []) (more : List Char) :
+    parseSlice (renderSlice l ++ more) = some (l, more) :=
+  parseSlice_render l hl more
+
+/-- **Templates, full statement** (`C18_template_statement`): scanning the rendering of any sequence
+    of text characters (other than `{`) and holes `{{ref}[slice]fmt}` — `ref` any non-empty text
+    without `}`, `slice` absent or any non-empty list of entries with optional bounds, `fmt` absent
+    or `:[0-9.]*[sdfeb]+` — returns exactly that sequence: every hole is found with its reference,
+    its slice entries and its format; the second `part_slice` call of the code finds nothing more. -/
+theorem C18_template : C18_template_statement :=
+  fun ps hp => scan_renderS ps hp _ (by omega)
+
+/-- **Templates, the text produced.**  For every way `hole` of obtaining the characters of a hole
+    (request of the reference, `slice_value`, `format`/`str` — parameters; `none` = it raises) and
+    every sequence of pieces of the template grammar, `TemplateSolver.solve` (scan + assembly, as
+    modelled by `solveTemplate`) applied to the rendered text returns the concatenation, in order,
+    of the copied characters and of `hole ref slice fmt` for every hole, and raises exactly when
+    one of the holes raises. -/
+theorem C18_template_output (hole : HoleFn) (ps : List Piece) (hp : ∀ p ∈ ps, PieceOKS p) :
+    solveTemplate hole (ps.flatMap renderPieceS) = (ps.mapM (pieceOut hole)).map List.flatten := by
+  unfold solveTemplate
+  rw [C18_template ps hp, assemble_eq]
+
+/-- the two readings of `C18_template_output`: all holes succeed → the text is the flat
+    concatenation; some hole raises → the solve raises -/
+theorem C18_template_output_cases (hole : HoleFn) (ps : List Piece) (hp : ∀ p ∈ ps, PieceOKS p) :
+    (∀ out : Piece → List Char, (∀ p ∈ ps, pieceOut hole p = some (out p)) →
+      solveTemplate hole (ps.flatMap renderPieceS) = some (ps.flatMap out)) ∧
+    ((∃ p ∈ ps, pieceOut hole p = none) → solveTemplate hole (ps.flatMap renderPieceS) = none) := by
+  rw [C18_template_output hole ps hp]
+  exact ⟨fun out h => mapM_pieceOut_ok hole out ps h, fun h => mapM_pieceOut_err hole ps h⟩
+
+/-- **Templates whose text contains braces.**  The round trip and the produced text also when the
+    copied text contains `{` (C / JSON / LaTeX templates): it suffices that every copied `{` is not
+    followed — after any blanks — by another `{`, nor directly by a malformed slice on which the slice
+    parser raises, in the rendered rest (`PiecesOK`; a copied character
+    other than `{` is unconstrained, so this contains `C18_template` and `C18_template_output`).
+    Not covered: a copied `{` followed by `{` that still fails to form a hole (`{{}`, `{{a}x`), which
+    the code copies as well. -/
+theorem C18_template_braces (hole : HoleFn) (ps : List Piece) (hp : PiecesOK ps) :
+    scanTemplate ((ps.flatMap renderPieceS).length + 1) (ps.flatMap renderPieceS) = ps ∧
+    solveTemplate hole (ps.flatMap renderPieceS) = (ps.mapM (pieceOut hole)).map List.flatten := by
+  have h := scan_renderB ps hp _ (Nat.lt_succ_self _)
+  refine ⟨h, ?_⟩
+  unfold solveTemplate
+  rw [h, assemble_eq]
+
+/-- **Text without holes is returned unchanged**: a text in which no `{` is followed (after blanks)
+    by another `{` or directly by a malformed slice is the result of solving it, whatever the
+    environment. -/
+theorem C18_template_plain (hole : HoleFn) (s : List Char) (h : PlainOK s) :
+    solveTemplate hole s = some s := by
+  have := (C18_template_braces hole (s.map Piece.text) (plain_piecesOK s h)).2
+  rw [plain_render, plain_out] at this
+  exact this
+
 /-! Non-vacuity: concrete well-formed trees / hypotheses. -/
+/-- ` - (1 -  + 2) * 3` -/
+example : (E.bin "mul" (.pre "sub" (.par (.bin "sub" (.lit (1 : Nat)) (.pre "add" (.lit 2))))) (.lit 3)).ArithS := by
+  simp [E.ArithS]
+/-- `"{ }{{?a}}"`: a copied `{` (followed by a blank and `}`), then a hole -/
+example : PiecesOK [.text '{', .text ' ', .text '}', .hole "?a".toList none none] := by
+  refine ⟨Or.inr (by decide), Or.inl (by decide), Or.inl (by decide), ?_, trivial⟩
+  exact ⟨by decide, by decide, fun l hl => (by cases hl), fun f hf => (by cases hf)⟩
+/-- `"f(x){ return {x}; }"` -/
+example : PlainOK ['f', '(', 'x', ')', '{', ' ', 'r', 'e', 't', 'u', 'r', 'n', ' ', '{', 'x', '}', ';', ' ', '}'] := by
+  decide
+/-- `"x={{?v}[1]:.2f};"` with the hole formatted as `2.00` gives `"x=2.00;"` -/
+example : solveTemplate (fun p sl fm => if p = "?v".toList ∧ sl = some [.idx 1] ∧ fm = some ":.2f".toList
+      then some "2.00".toList else none) "x={{?v}[1]:.2f};".toList = some "x=2.00;".toList := by
+  decide +kernel
+/-- `{{?mat}[1,:3,2:,:,0:12,4:4]:.2e}` is a piece of the full template statement -/
+example : PieceOKS (.hole "?mat".toList (some [.idx 1, .range none (some 3), .range (some 2) none, .range none none,
+    .range (some 0) (some 12), .range (some 4) (some 4)]) (some ":.2e".toList)) :=
+  ⟨by decide, by decide, fun l hl => by cases hl; simp, fun f hf => by
+    cases hf; exact ⟨⟨".2".toList, "e".toList, rfl, by decide, by decide, by decide⟩⟩⟩
+example : renderPieceS (.hole "?mat".toList (some [.idx 1, .range none (some 3), .range (some 2) none, .range none none,
+    .range (some 0) (some 12), .range (some 4) (some 4)]) (some ":.2e".toList)) = "{{?mat}[1,:3,2:,:,0:12,4:4]:.2e}".toList := by decide +kernel
 example : (E.bin "add" (.lit (1 : Nat)) (.bin "mul" (.pre "sub" (.lit 2)) (.fn2 "powb" (.par (.bin "sub" (.lit 3)
     (.bin "pow" (.lit 4) (.lit 5)))) (.lit 2)))).WF numGrammar := by simp [E.WF, numGrammar, E.top]
 example : (E.bin "or" (.lit (0 : Nat)) (.bin "and" (.pre "not" (.bin "le" (.lit 1) (.lit 2))) (.par (.lit 3)))).WF
